@@ -44,3 +44,42 @@ Lemma m_after_typed : exists t, type_of m_after = ROk t /\ c_base (t_corr t) = B
 Proof. eexists. split; vm_compute; reflexivity. Qed.
 Lemma m_older_typed : exists t, type_of m_older = ROk t /\ c_base (t_corr t) = BB.
 Proof. eexists. split; vm_compute; reflexivity. Qed.
+
+(* ---- round 3: an environment in which keys and signatures have a shape (a key starts with the
+   byte 02 and has at least two bytes, a signature starts with the byte 0x30), so that neither the
+   empty string nor the byte 01 is one of them *)
+Definition shape_key (b : bytes) : bool := match b with 2 :: _ :: _ => true | _ => false end.
+Definition shape_sig (s : bytes) : bool := match s with 48 :: _ => true | _ => false end.
+Definition fit_env (sv : sigversion) (locktime sequence version : N) : env :=
+  mkEnv sv locktime sequence version (fun _ s => shape_sig s) shape_key
+        (fun b => 1 :: b) (fun b => 2 :: b) (fun b => 3 :: b) (fun b => 4 :: b).
+
+(* or_i(pk(0),pk(1)), or_b(pk(0),s:pk(1)), multi(1,0,1) *)
+Definition m_ori : ms := MOrI (MCheck (MPkK 0)) (MCheck (MPkK 1)).
+Definition m_orb : ms := MOrB (MCheck (MPkK 0)) (MSwap (MCheck (MPkK 1))).
+Definition m_multi : ms := MMulti 1 [0; 1].
+
+(* sh(or_i(pk,pk)) -- the base signature version has no MINIMALIF: the script takes the selector
+   02 for "true", the interpreter only the byte 01 *)
+Lemma base_selector_witness :
+  accepts (fit_env SvBase 0 0 2) (enc toy_ke m_ori) (rev [toy_sig; [2]]) = true
+  /\ interp (fit_env SvBase 0 0 2) toy_ke shape_key m_ori (astack_of_items [toy_sig; [2]]) = IReject EElemPush []
+  /\ accepts (fit_env SvWitnessV0 0 0 2) (enc toy_ke m_ori) (rev [toy_sig; [2]]) = false
+  /\ interp (fit_env SvBase 0 0 2) toy_ke shape_key m_ori (astack_of_items [toy_sig; [1]]) = IAccept [CsPk [2; 0] toy_sig].
+Proof. repeat split; vm_compute; reflexivity. Qed.
+
+(* non-canonical satisfactions the script accepts and the interpreter accepts as well:
+   or_b with both sides satisfied; multi *)
+Lemma noncanonical_witness :
+  accepts (fit_env SvWitnessV0 0 0 2) (enc toy_ke m_orb) (rev [toy_sig; toy_sig]) = true
+  /\ interp (fit_env SvWitnessV0 0 0 2) toy_ke shape_key m_orb (astack_of_items [toy_sig; toy_sig])
+     = IAccept [CsPk [2; 0] toy_sig; CsPk [2; 1] toy_sig]
+  /\ accepts (fit_env SvWitnessV0 0 0 2) (enc toy_ke m_multi) (rev [[]; toy_sig]) = true
+  /\ interp (fit_env SvWitnessV0 0 0 2) toy_ke shape_key m_multi (astack_of_items [[]; toy_sig])
+     = IAccept [CsPk [2; 1] toy_sig].
+Proof. repeat split; vm_compute; reflexivity. Qed.
+
+Lemma m_ori_typed : exists t, type_of m_ori = ROk t /\ c_base (t_corr t) = BB.
+Proof. eexists. split; vm_compute; reflexivity. Qed.
+Lemma m_orb_typed : exists t, type_of m_orb = ROk t /\ c_base (t_corr t) = BB.
+Proof. eexists. split; vm_compute; reflexivity. Qed.
